@@ -104,6 +104,23 @@ def name_rules(rep, prog, cfg):
     ok = bool(ok_t and err_t and cons) and all(c in reach(g.succs, ok_t) and c not in reach(g.succs, err_t) for c in cons)
     rep.check(ok, "C07.name-alphabet", cfg + "/constructed only when valid", build.loc(build.span),
               "Command::build constructs the command on a path that does not come from the validator's Ok result")
+    # what is stored is what was validated: the bytes derive from the name through conversions that keep them
+    KEEP = {"core::convert::From::from", "core::convert::Into::into", "core::str::<impl str>::as_bytes", "alloc::borrow::ToOwned::to_owned",
+            "alloc::string::ToString::to_string", "bytes::bytes_mut::BytesMut::from", "bytes::bytes::Bytes::copy_from_slice",
+            "core::ops::deref::Deref::deref", "core::convert::AsRef::as_ref", "alloc::string::String::from", "alloc::string::String::as_bytes",
+            "alloc::string::String::as_str", "bytes::bytes_mut::BytesMut::extend_from_slice", "bytes::buf::buf_mut::BufMut::put_slice",
+            "core::clone::Clone::clone", "alloc::string::String::into_bytes", "alloc::vec::Vec::as_slice"}
+    bfl = Flow(build)
+    for cb in cons:
+        for st in build.blocks[cb]["s"]:
+            if st["k"] == "assign" and st["rv"]["k"] == "agg" and st["rv"].get("adt_name", "").endswith("command::Command"):
+                leaves, _ = bfl.sources([op_local(o) for o in st["rv"]["ops"] if op_local(o) is not None], through_call=lambda t2, k=None: (0, 1), follow_mut=True)
+                changing = sorted({callee_names(build.blocks[x[1]]["t"])[0] for x in leaves if x[0] in ("call", "callmut")
+                                   and not any(n in KEEP for n in callee_names(build.blocks[x[1]]["t"]))})
+                rep.check(("param", 1) in leaves and not changing and not any(x[0] == "const" for x in leaves), "C07.name-alphabet",
+                          cfg + "/stored name is the validated name", build.loc(st["span"]),
+                          "the bytes stored in the command are not the validated name itself but pass through %s: what reaches the wire "
+                          "(e.g. a case-folded `command_list_end`) was never checked" % (changing or "a constant"))
     # who may construct a Command at all
     for b in prog.bodies.values():
         if b.crate != "mpd_protocol" or b.raw.get("derived"):
@@ -233,6 +250,25 @@ def arg_rules(rep, prog, cfg):
     V = prog.bodies[callee(vt)["def"]]
     rep.check(g.pdom(vbb, rbb) and g.dom(rbb, vbb), "C07.arg-lf", cfg + "/validation after rendering", b.loc(b.blocks[vbb]["ts"]),
               "the argument validation does not run after Argument::render on every path: a renderer's output could reach the wire unchecked")
+    # exactly one separator byte is written, unconditionally, between taking the length and rendering: the validated
+    # range `[len + 1..]` and the rollback rely on it
+    seps = [(bb, t) for bb, t in b.calls() if "bytes::buf::buf_mut::BufMut::put_u8" in callee_names(t)]
+    lens = [bb for bb, t in b.calls() if "bytes::bytes_mut::BytesMut::len" in callee_names(t) and g.dom(bb, rbb)]
+    sep_ok = len(seps) == 1 and g.dom(seps[0][0], rbb) and not any(seps[0][0] in l for l in g.loops) and lens and all(g.dom(l, seps[0][0]) for l in lens)
+    rep.check(sep_ok, "C07.arg-lf", cfg + "/one unconditional separator", b.loc(b.span),
+              "add_argument does not write exactly one separator byte on every path between taking the buffer length and rendering the argument: "
+              "the validated range (everything after length + 1) then misses the first rendered byte or covers stale bytes")
+    # the validated slice starts at that length + 1
+    sl = None
+    for bb2, t2 in b.calls():
+        if any(n.endswith("Index::index") for n in callee_names(t2)) and g.dom(rbb, bb2) and g.dom(bb2, vbb):
+            sl = t2
+    if sl is not None:
+        leaves_i, _ = fl.sources([op_local(sl["args"][1])], follow_mut=False)
+        from_len = any(x[0] == "call" and x[1] in lens for x in leaves_i)
+        consts = sorted(x[1] for x in leaves_i if x[0] == "const")
+        rep.check(from_len and consts == ["1_usize"], "C07.arg-lf", cfg + "/validated range starts after the separator", b.loc(b.span),
+                  "the validated slice does not start at (length before the call) + 1 (sources: len=%s consts=%s)" % (from_len, consts))
     # validated bytes are a slice of the command buffer itself, not the argument value
     leaves, _ = fl.sources([op_local(vt["args"][0])], through_call=lambda t2, k=None: (0,), follow_mut=False)
     from_self = ("param", 1) in leaves
